@@ -422,6 +422,17 @@ fn run_race(
             inner.faults.clone(),
         );
         evals += 1;
+        if std::env::var("VERIF_TIMING").is_ok() && inner.faults.iter().any(|f| f.freeze_torn) {
+            eprintln!("kill-run {:?} faults={:?}", inner.sch, inner.faults);
+            for (a, l) in &out.trace {
+                if l.key.path.starts_with("d/") || l.key.path.is_empty() || l.key.path == "d" {
+                    eprintln!("   actor {a} {:?} {} pre={:?} inj={:?} ok={}", l.key.verb, l.key.path.chars().take(20).collect::<String>(), l.pre, l.injected, l.ok);
+                }
+            }
+            for (i, r) in out.results.iter().enumerate() {
+                eprintln!("   result {i}: {}", r.describe().chars().take(200).collect::<String>());
+            }
+        }
         // both listed the bands before either created one?
         let first_create: Vec<Option<usize>> = (0..2)
             .map(|a| out.trace.iter().position(|(x, l)| *x == a && l.key.verb == V::CreateDir && l.key.path.starts_with('b')))
@@ -479,7 +490,8 @@ fn run_race(
             // complete bands made without a reported error restore to their actor's source
             let post = format::scan(&w.arch);
             for (i, r) in out.results.iter().enumerate() {
-                let reported = r.reported_error() || r.result.as_ref().map(|s| s.errors > 0).unwrap_or(true);
+                // (an ERROR line in the log is not a report: see ops::backup_reported_error)
+                let reported = r.panic.is_some() || r.result.is_err() || !r.monitor_errors.is_empty() || r.result.as_ref().map(|s| s.errors > 0).unwrap_or(true);
                 if reported {
                     continue;
                 }
